@@ -20,7 +20,7 @@ how={'C18':'tools/verify_seeded_c18.sh <scratch worktree> <dir>: examples/demo.r
 m['confirmed_by_me']={'how':how,'result':'confirmed'}
 json.dump(m,open(f'/verif/seeded/{p}-{k}/meta.json','w'),indent=1)
 PY
-    for c in $P $EXTRA; do tools/mutate.sh $d/patch.diff $c 2>&1 | grep -E "VIOLATION|quick:|ERROR|error:" | cut -c1-220; done
+    [ -n "$SKIP_MUTATE" ] || for c in $P $EXTRA; do tools/mutate.sh $d/patch.diff $c 2>&1 | grep -E "VIOLATION|quick:|ERROR|error:" | cut -c1-220; done
   else
     echo "NOT CONFIRMED: $B"
   fi
